@@ -99,6 +99,7 @@ fn small_model(w: &mut Tape, syn: Syntax) -> Vec<ds::Elem> {
         all_undefined: false,
         latin1: false,
         utf8: false,
+        other_cs: 0,
     };
     let mut m = model_items_undef(&restrict_to(&ds::gen_dataset(w, &gcfg), syn));
     if !big {
